@@ -50,6 +50,7 @@ type Contract struct {
 	Asserts  []*Clause // ghost statements keyed by position marker
 	Opts     map[string]string
 	Replay   string
+	BehavAssumes map[string][]*Clause
 	All      []*Clause
 }
 
@@ -84,6 +85,7 @@ type Lemma struct {
 	Unfold  []Expr
 	UnfoldAt []Expr
 	Decr    Expr
+	Auto    bool // axiom included (universally quantified) wherever the spec functions it mentions are used
 	Text    string
 	File    string
 	Line    int
@@ -96,7 +98,15 @@ type GlobalSpec struct { // assumed value of a package-level variable field
 	Expr    Expr
 }
 
+type GhostDecl struct {
+	PkgPath string
+	Name    string
+	Params  []QVar
+	Ret     *TypeExpr
+}
+
 type ContractSet struct {
+	Ghosts  map[string]*GhostDecl
 	Funcs   map[string]*Contract
 	Specs   map[string]*SpecFunc // key pkg.Name
 	Lemmas  map[string]*Lemma
@@ -108,13 +118,13 @@ var clauseKeywords = map[string]bool{
 	"requires": true, "ensures": true, "modifies": true, "pure": true, "mode": true, "strings": true,
 	"decreases": true, "panics": true, "emits": true, "loop": true, "callinv": true, "unfold": true,
 	"behavior": true, "assumes": true, "nooverflow": true, "use": true, "trusted": true, "replay": true,
-	"opt": true, "induct": true, "unfoldat": true,
+	"opt": true, "induct": true, "unfoldat": true, "auto": true,
 }
 
 var itemKeywords = map[string]bool{"func": true, "spec": true, "lemma": true, "axiom": true, "interface": true, "type": true, "ghost": true}
 
 func loadContracts(repo string, extraDirs ...string) (*ContractSet, error) {
-	cs := &ContractSet{Funcs: map[string]*Contract{}, Specs: map[string]*SpecFunc{}, Lemmas: map[string]*Lemma{}}
+	cs := &ContractSet{Funcs: map[string]*Contract{}, Specs: map[string]*SpecFunc{}, Lemmas: map[string]*Lemma{}, Ghosts: map[string]*GhostDecl{}}
 	var files []string
 	filepath.Walk(repo, func(p string, info os.FileInfo, err error) error {
 		if err != nil {
@@ -399,6 +409,17 @@ func (cs *ContractSet) parseItem(file, pkgPath, header string, line int, clauses
 				c.Replay = body
 			case "behavior":
 				behav = strings.TrimSuffix(strings.TrimSpace(body), ":")
+			case "assumes":
+				if err := parse(); err != nil {
+					return err
+				}
+				if behav == "" {
+					return fmt.Errorf("%s:%d: assumes outside a behavior", file, rc.line)
+				}
+				if c.BehavAssumes == nil {
+					c.BehavAssumes = map[string][]*Clause{}
+				}
+				c.BehavAssumes[behav] = append(c.BehavAssumes[behav], cl)
 			case "emits":
 				// emits x T :: count(x)   -- the callback is called count(x) times with argument x
 				q, err := parseExpr("forall " + body)
@@ -511,6 +532,8 @@ func (cs *ContractSet) parseItem(file, pkgPath, header string, line int, clauses
 				if body == "bv" {
 					lm.Mode = ModeBV
 				}
+			case "auto":
+				lm.Auto = true
 			case "decreases":
 				e, err := parseExpr(body)
 				if err != nil {
@@ -553,6 +576,36 @@ func (cs *ContractSet) parseItem(file, pkgPath, header string, line int, clauses
 			cs.Assumed = append(cs.Assumed, fmt.Sprintf("axiom %s.%s: %s", pkgPath, head, body))
 		}
 		cs.Lemmas[pkgPath+"."+head] = lm
+	case "ghost":
+		// ghost name(x T) R : a ghost heap component (a map from x to R), read as name(x), modified via "modifies name(x)"
+		i := strings.Index(rest, "(")
+		if i < 0 {
+			return errf("bad ghost declaration")
+		}
+		j := matchParen(rest, i)
+		params, err := parseParams(rest[i+1 : j])
+		if err != nil || len(params) != 1 {
+			return errf("ghost %s: exactly one parameter expected", rest[:i])
+		}
+		tail := strings.TrimSpace(rest[j+1:])
+		ps := &parser{src: tail}
+		ps.toks, err = lex(tail)
+		if err != nil {
+			return errf("%v", err)
+		}
+		g := &GhostDecl{PkgPath: pkgPath, Name: strings.TrimSpace(rest[:i]), Params: params}
+		func() {
+			defer func() {
+				if r := recover(); r != nil {
+					err = fmt.Errorf("%v", r)
+				}
+			}()
+			g.Ret = ps.typeExpr()
+		}()
+		if err != nil {
+			return errf("ghost %s: %v", g.Name, err)
+		}
+		cs.Ghosts[pkgPath+"."+g.Name] = g
 	default:
 		return errf("unsupported item %q", w)
 	}
